@@ -11,8 +11,15 @@ def handle (op : String) (args : List String) : Option String :=
     let a ← parseArr? a; let b ← parseArr? b
     match op with
     | "matmul" => some (showRes showArr (ArrModel.C14.matmul a b))
-    | "dot" => some (match ArrModel.C14.dot a b with
-        | some r => showRes showArr r
+    | "dot" =>
+      -- region of the open finding (the model mirrors the test-pinned refusal): when `dot` refuses two matrices
+      -- whose `matmul` is defined, the textbook value proved by `matmul_22` is sent along so that the harness can
+      -- hold the real code to the property there
+      let m := showRes showArr (ArrModel.C14.matmul a b)
+      some (match ArrModel.C14.dot a b with
+        | some r =>
+          let d := showRes showArr r
+          if a.ndim = 2 ∧ b.ndim = 2 ∧ d.startsWith "err" ∧ m.startsWith "ok" then d ++ " | matmul " ++ m else d
         | none => "open")
     | "vdot" => some (showRes showArr (ArrModel.C14.vdot a b))
     | "inner" => some (showRes showArr (ArrModel.C14.inner a b))
